@@ -13,11 +13,27 @@ import (
 // Reference model of list and get, written from the statement.
 
 const (
-	edgeTol   = int64(25 * time.Microsecond) // sample-vs-window-edge don't-care (1 tick of either track + microsecond truncation)
+	edgeTol   = int64(25 * time.Microsecond) // sample-vs-window-edge don't-care (1 tick of a >= 44.1 kHz track + microsecond truncation)
 	spanTol   = int64(2 * time.Millisecond)  // span edges (header durations are stored in milliseconds)
 	tinySpan  = int64(3 * time.Millisecond)  // clippings shorter than this may be present or absent
 	tickSlack = 2                            // output timestamps, in ticks of the track
 )
+
+// tolFor is the sample-vs-window-edge don't-care of a track: one tick of the track plus the
+// microsecond truncation of the file names (25 us for the 90 / 48 / 44.1 kHz tracks, 127 us at 8 kHz).
+func tolFor(scale int64) int64 {
+	if scale <= 0 {
+		return edgeTol
+	}
+	return max(edgeTol, int64(time.Second)/scale+2000)
+}
+
+func winClass(cs Case) string {
+	if cs.Win == "" {
+		return ""
+	}
+	return " win=" + cs.Win + " at=" + cs.At
+}
 
 func tstr(ns int64) string { return time.Unix(0, ns).In(time.Local).Format("15:04:05.000000") }
 
@@ -35,7 +51,14 @@ func evalList(pb *reclib.Playback, k *KCorpus, cs Case) Result {
 		t := time.Unix(0, cs.StartNs)
 		sp = &t
 	}
-	if cs.EndNs != absent {
+	switch {
+	case cs.EndMax:
+		t := listEndMax
+		ep = &t
+	case cs.DurNs > 0: // the end instant may not be representable in ns
+		t := time.Unix(0, cs.StartNs).Add(time.Duration(cs.DurNs))
+		ep = &t
+	case cs.EndNs != absent:
 		t := time.Unix(0, cs.EndNs)
 		ep = &t
 	}
@@ -55,7 +78,7 @@ func evalList(pb *reclib.Playback, k *KCorpus, cs Case) Result {
 		lo = cs.StartNs
 	}
 	if cs.EndNs != absent {
-		hi = cs.EndNs
+		hi = cs.EndNs // saturated at MaxInt64 when the end is beyond the representable instants
 	}
 	var must, may []ival // clipped spans that must / may be listed
 	for _, s := range k.Spans {
@@ -74,7 +97,7 @@ func evalList(pb *reclib.Playback, k *KCorpus, cs Case) Result {
 			got = append(got, ival{s.Start.UnixNano(), s.End().UnixNano()})
 		}
 	}
-	res.Class = fmt.Sprintf("k%s list status=%d spans=%d must=%d may=%d start=%v end=%v", k.Path, status, len(got), len(must), len(may), sp != nil, ep != nil)
+	res.Class = fmt.Sprintf("k%s list status=%d spans=%d must=%d may=%d start=%v end=%v%s", k.Path, status, len(got), len(must), len(may), sp != nil, ep != nil, winClass(cs))
 
 	if len(must) > 0 && status != 200 {
 		viol("error-status", fmt.Sprintf("answers %d (%s) although %d spans of recorded media intersect the interval", status, strings.TrimSpace(string(body)), len(must)))
@@ -164,16 +187,28 @@ func evalGet(pb *reclib.Playback, k *KCorpus, cs Case) Result {
 		res.Viols = append(res.Viols, Viol{Key: "get:" + key, What: what + " [" + describe(cs) + "]"})
 	}
 	S, E := cs.StartNs, cs.EndNs
-	status, body, err := pb.Get(time.Unix(0, S), time.Duration(E-S), cs.Format)
+	var status int
+	var body []byte
+	var err error
+	switch {
+	case cs.DurRaw != "":
+		status, body, err = pb.GetRaw(time.Unix(0, S).Format(time.RFC3339Nano), cs.DurRaw, cs.Format)
+	case cs.DurNs > 0:
+		status, body, err = pb.Get(time.Unix(0, S), time.Duration(cs.DurNs), cs.Format)
+	default:
+		status, body, err = pb.Get(time.Unix(0, S), time.Duration(E-S), cs.Format)
+	}
 	if err != nil && status == 0 {
 		viol("no-answer", err.Error())
 		return res
 	}
 
 	// the stream that contains the start
+	// (a start before the first sample of a stream -- even 1 ns before it -- lies in a gap or
+	// before the recording: nothing is required then, see the assumptions)
 	stream := -1
 	for _, sp := range k.Spans {
-		if S >= sp.StartNs-edgeTol && S < sp.EndNs {
+		if S >= sp.StartNs && S < sp.EndNs {
 			stream = sp.Stream
 		}
 	}
@@ -196,7 +231,7 @@ func evalGet(pb *reclib.Playback, k *KCorpus, cs Case) Result {
 	nReq := 0
 	for i, s := range k.Samples {
 		inWin := s.AbsNs >= S && s.AbsNs < E
-		nearEdge := abs64(s.AbsNs-S) <= edgeTol || abs64(s.AbsNs-E) <= edgeTol
+		nearEdge := abs64(s.AbsNs-S) <= tolFor(s.Scale) || abs64(s.AbsNs-E) <= tolFor(s.Scale)
 		switch {
 		case nearEdge:
 			class[i] = edge
@@ -244,11 +279,11 @@ func evalGet(pb *reclib.Playback, k *KCorpus, cs Case) Result {
 		}
 		viol(fmt.Sprintf("%s:error-status-%d:%s", cs.Format, status, shape), fmt.Sprintf("answers %d (%s) although %d recorded samples of the stream containing the start fall in the window",
 			status, strings.TrimSpace(string(body)), nReq))
-		res.Class = fmt.Sprintf("k%s get-%s status=%d required=%d", k.Path, cs.Format, status, nReq)
+		res.Class = fmt.Sprintf("k%s get-%s status=%d required=%d%s", k.Path, cs.Format, status, nReq, winClass(cs))
 		return res
 	}
 	if status != 200 {
-		res.Class = fmt.Sprintf("k%s get-%s status=%d required=0 stream=%v edge=%v", k.Path, cs.Format, status, stream >= 0, startsAtEdge)
+		res.Class = fmt.Sprintf("k%s get-%s status=%d required=0 stream=%v edge=%v%s", k.Path, cs.Format, status, stream >= 0, startsAtEdge, winClass(cs))
 		return res
 	}
 
@@ -283,6 +318,10 @@ func evalGet(pb *reclib.Playback, k *KCorpus, cs Case) Result {
 			pos[i] = p
 		}
 		gs := servedBy[tid]
+		tol := edgeTol
+		if len(rec) > 0 {
+			tol = tolFor(k.Samples[rec[0]].Scale)
+		}
 		prevPos := -1
 		nPre, nIn := 0, 0
 		firstInIdx := -1
@@ -315,13 +354,13 @@ func evalGet(pb *reclib.Playback, k *KCorpus, cs Case) Result {
 			prevPos = pos[ri]
 			// window classification
 			switch {
-			case rs.AbsNs < S-edgeTol:
+			case rs.AbsNs < S-tol:
 				nPre++
 				pre = append(pre, ri)
 				if firstInIdx >= 0 {
 					viol("preroll-after-window-start", fmt.Sprintf("track %d: unit %d (before the start) follows in-window samples", tid, g.UnitID))
 				}
-			case rs.AbsNs >= E+edgeTol:
+			case rs.AbsNs-E >= tol: // (E may be MaxInt64)
 				viol("sample-after-window", fmt.Sprintf("track %d: unit %d at %s is %s after the end of the window", tid, g.UnitID, tstr(rs.AbsNs), time.Duration(rs.AbsNs-E)))
 			default:
 				nIn++
@@ -330,7 +369,7 @@ func evalGet(pb *reclib.Playback, k *KCorpus, cs Case) Result {
 				}
 				// relative to the requested start
 				wantTicks := (rs.AbsNs - S) * rs.Scale / int64(time.Second)
-				if abs64(rs.AbsNs-S) > edgeTol && abs64(g.DTS-wantTicks) > tickSlack {
+				if abs64(rs.AbsNs-S) > tol && abs64(g.DTS-wantTicks) > tickSlack {
 					viol("timestamp-not-relative-to-start", fmt.Sprintf("track %d: unit %d served at %d ticks, it lies %d ticks after the requested start",
 						tid, g.UnitID, g.DTS, wantTicks))
 				}
@@ -342,7 +381,7 @@ func evalGet(pb *reclib.Playback, k *KCorpus, cs Case) Result {
 			var allowed []int
 			for _, i := range rec {
 				s := k.Samples[i]
-				if s.AbsNs >= S-edgeTol {
+				if s.AbsNs >= S-tol {
 					break
 				}
 				if s.Sync {
@@ -429,7 +468,7 @@ func evalGet(pb *reclib.Playback, k *KCorpus, cs Case) Result {
 		}
 		viol(missKey, fmt.Sprintf("%d recorded samples in the window are not served (units %s...)", len(missing), joinInts(missing)))
 	}
-	res.Class = fmt.Sprintf("k%s get-%s 200 %s stream=%v", k.Path, cs.Format, strings.Join(classParts, " "), stream >= 0)
+	res.Class = fmt.Sprintf("k%s get-%s 200 %s stream=%v%s", k.Path, cs.Format, strings.Join(classParts, " "), stream >= 0, winClass(cs))
 	if os.Getenv("C29_DEBUG") != "" {
 		var sb strings.Builder
 		for _, g := range got {
